@@ -2,6 +2,7 @@
 //! real crate and says whether the defect still reproduces.
 pub fn run(id: &str) -> String {
     let r: Option<(bool, String)> = match id {
+        "F11-incmany-overflow" => Some(crate::c11::finding_incmany_overflow()),
         _ => None,
     };
     match r {
